@@ -10,7 +10,8 @@ MANIFEST = dict(
          "edit x RollingInPlace/RollingRecreate x status checks x hook-owned Updated condition) and prints each plan as a scenario; "
          "replayed round by round on the real composite controller with real ControllerRevisions; TLC validates the trace against "
          "spec/TraceSync.tla (C07_OneMove, C07_HookOrder, C07_Gate, C07_OldStay, C07_NonRevNow, C07_Cond; C08_Done, "
-         "C08_NoNeedlessWait).",
+         "C08_NoNeedlessWait)."
+         ' Plans vary the health policy (observedGeneration absent / 0 / not a number), whether the child SET depends on the revision, children pre-edited by somebody else (last-applied-only updates), generateSelector, status checks with and without reason, scale-down of the first or the last child.',
     ref="DESIGN.md §8 C08",
     tech="TLA+ model (TLC invariants) + TLC-enumerated rollout plans replayed on real code + TLC trace validation")
 
